@@ -11,31 +11,24 @@ open BsVerif BsVerif.Proto BsVerif.Dap
 structure St where
   s : Sess := {}
 
-def cmdName : Cmd → String
-  | .initialize => "initialize" | .launch => "launch" | .setBreakpoints => "setBreakpoints"
-  | .configurationDone => "configurationDone" | .threads => "threads" | .stackTrace => "stackTrace"
-  | .scopes => "scopes" | .variables => "variables" | .continue_ => "continue" | .next => "next"
-  | .stepIn => "stepIn" | .stepOut => "stepOut" | .pause => "pause" | .evaluate => "evaluate"
-  | .disconnect => "disconnect" | .terminate => "terminate" | .terminateThreads => "terminateThreads"
-  | .frobnicate => "frobnicate"
-
-def allCmds : List Cmd :=
-  [.initialize, .launch, .setBreakpoints, .configurationDone, .threads, .stackTrace, .scopes, .variables,
-   .continue_, .next, .stepIn, .stepOut, .pause, .evaluate, .disconnect, .terminate, .terminateThreads, .frobnicate]
-
 def decCmd? (t : String) : Option Cmd := allCmds.find? (fun c => cmdName c == t)
 
 def decMut? : String → Option Mut
   | "valid" => some .valid | "missing" => some .missing | "illtyped" => some .illtyped
   | "noargs" => some .noargs | "nofile" => some .nofile | _ => none
 
-def evName : Ev → String
-  | .initialized => "initialized" | .capabilities => "capabilities" | .process => "process"
-  | .moduleNew => "module.new" | .moduleRemoved => "module.removed"
-  | .sourceNew => "loadedSource.new" | .sourceRemoved => "loadedSource.removed"
+def qevName : QEv → String
+  | .capabilities => "capabilities" | .process => "process"
+  | .moduleNew => "module.new" | .sourceNew => "loadedSource.new"
   | .threadStarted => "thread.started" | .threadExited => "thread.exited"
   | .stopped r => "stopped." ++ r | .continued => "continued"
   | .bpChanged => "breakpoint.changed" | .bpRemoved => "breakpoint.removed"
+
+def evName : Ev → String
+  | .q e => qevName e
+  | .initialized => "initialized"
+  | .moduleRemoved => "module.removed" | .sourceRemoved => "loadedSource.removed"
+  | .threadExitedAtEnd => "thread.exited"
   | .exited => "exited" | .terminated => "terminated"
 
 def msgTok : Msg → String
